@@ -16,8 +16,8 @@ import (
 )
 
 type c08Step struct {
-	Kind    string    `json:"kind"` // "304" | "200"
-	Mode    string    `json:"mode"` // "fg" | "swr"
+	Kind    string    `json:"kind"`                   // "304" | "200"
+	Mode    string    `json:"mode"`                   // "fg" | "swr"
 	NewL    int64     `json:"new_lifetime,omitempty"` // 304/200: max-age sent (0 = 304 sends no Cache-Control)
 	XNew    bool      `json:"x_new,omitempty"`
 	Age     string    `json:"age,omitempty"`
